@@ -241,7 +241,7 @@ func judgeCases(c *lib.Ctx, dir, name string, cases []vcase) error {
 		ts[701].Len++
 		ts[702].R.Ok = !ts[702].R.Ok
 	}
-	bad, err := lib.Judge(c, name, dir, "JudgePVector", ts, 5, 10*time.Minute)
+	bad, err := lib.Judge(c, name, dir, "JudgePVector", ts, 4, 10*time.Minute)
 	if err != nil {
 		return err
 	}
